@@ -24,7 +24,7 @@ def node_admittance_matrix(network: Network, node_index_mapper: map.NetworkMappe
             return admittance_connected_to(no_voltage_sources_network, i_label)
         return -admittance_between(no_voltage_sources_network, i_label, j_label)
     node_mapping = node_index_mapper(network)
-    no_voltage_sources_network = Network(branches=[b for b in network.branches if not is_ideal_voltage_source(b.element)], node_zero_label=network.node_zero_label)
+    no_voltage_sources_network = network # ideal voltage sources have infinite admittance and are skipped by the admittance sums
     Y = np.zeros((node_mapping.N, node_mapping.N), dtype=complex)
     for i_label, j_label in itertools.product(node_mapping, repeat=2):
         Y[node_mapping(i_label, j_label)] = node_matrix_element(i_label, j_label)
